@@ -50,6 +50,11 @@ type Obligation struct {
 	Model   string
 	SMTSize int
 	Bounded bool
+	InlinedFn string            // obligation arises inside this inlined callee (short name), "" otherwise
+	BaseWhat  string            // kind:what without the @callee suffix
+	RootKey   string            // contract key of the function under verification
+	EntryHeap map[string]string // heap map name -> SMT constant of its value at function entry
+	Sweep   bool // from a zero-annotation sweep: decided by one solver under a resource limit
 }
 
 type inputVar struct {
@@ -207,8 +212,15 @@ func (x *Exec) obligeIn(st *State, kind, what, goal, note string) {
 		name = fmt.Sprintf("%s@%d", base, x.occ[base])
 	}
 	o := &Obligation{Name: name, Fn: fn, Kind: kind, Hyps: []string{st.pc}, Goal: goal, VC: x.vc, Note: note, Inputs: x.inputs}
+	if x.cur != nil && x.cur.fn != x.rootFn {
+		o.InlinedFn = shortFn(x.cur.fn)
+	}
+	o.BaseWhat = kind + ":" + what
 	if x.rootSpec != nil {
 		o.Props = x.rootSpec.Props
+		o.Sweep = x.rootSpec.Implicit
+		o.RootKey = x.rootSpec.Key
+		o.EntryHeap = x.heapEntry
 	}
 	x.obls = append(x.obls, o)
 }
@@ -869,7 +881,7 @@ func isCellAlloc(a *ssa.Alloc) bool {
 }
 
 func (x *Exec) nilCheck(st *State, ref, what string) {
-	if x.safety {
+	if x.safety && !(x.rootSpec != nil && x.rootSpec.NoNil) {
 		x.obligeIn(st, "nil", what, "(not (= "+ref+" 0))", "")
 	}
 	// after the check execution continues only if non-nil
@@ -1602,7 +1614,7 @@ func (x *Exec) execMapUpdate(fr *Frame, st *State, i *ssa.MapUpdate) {
 	mv := x.val(fr, i.Map)
 	kv := x.val(fr, i.Key)
 	vv := x.val(fr, i.Value)
-	if x.safety {
+	if x.safety && !(x.rootSpec != nil && x.rootSpec.NoNil) {
 		x.obligeIn(st, "nilmap", x.srcText(i), not(eq(mv.One(), "0")), "")
 	}
 	x.assumeIn(st, not(eq(mv.One(), "0")))
